@@ -7,7 +7,380 @@ import PG.Spec.CacheView
 import PG.Lemmas.Serial
 import PG.Lemmas.Sorted
 import PG.Lemmas.StrTab
+import PG.Lemmas.WriterInv0
+import PG.Lemmas.WriterInv1
 namespace PG
+
+namespace WI
+open SpecR
+
+/-! ### resolving offsets in the final table -/
+
+theorem res_str (T : StrTab) (hi : T.Inv) (hsb : T.bytes.length < u32Max) (C : Cache)
+    (hC : C.strings = T.bytes) (s : Bytes) (h : InTab T s) :
+    C.str (off T s) = some s ∧ off T s ≠ u32Max ∧ (s, off T s) ∈ T.index := by
+  obtain ⟨o, ho⟩ := h
+  obtain ⟨_, hlt, hread⟩ := hi.reads s o ho
+  have ho32 : o < u32Bound := by simp only [u32Max, u32Bound] at *; omega
+  have e : off T s = o := by rw [off_of_mem T hi s o ho]; exact asU32_of_lt o ho32
+  rw [e]
+  refine ⟨?_, ?_, ho⟩
+  · have := hread []
+    rw [List.append_nil] at this
+    simp only [Cache.str, hC, this]
+  · omega
+
+theorem res_opt (T : StrTab) (hi : T.Inv) (hsb : T.bytes.length < u32Max) (C : Cache)
+    (hC : C.strings = T.bytes) (s : Option Bytes) (h : OptInTab T s) :
+    C.optStr (optOffAt T s) = some s := by
+  cases s with
+  | none => simp [Cache.optStr, optOffAt]
+  | some x =>
+    obtain ⟨h1, h2, _⟩ := res_str T hi hsb C hC x h
+    simp [Cache.optStr, optOffAt, h1, h2]
+
+theorem res_args (T : StrTab) (hi : T.Inv) (hsb : T.bytes.length < u32Max) (C : Cache)
+    (hC : C.strings = T.bytes) (a : Bytes) (h : a ≠ [] → InTab T a) :
+    ∃ x : Option Bytes, C.optStr (off T a) = some x ∧ x.getD [] = a := by
+  by_cases ha : a = []
+  · subst ha
+    exact ⟨none, by simp [Cache.optStr, off_nil], rfl⟩
+  · obtain ⟨h1, h2, _⟩ := res_str T hi hsb C hC a (h ha)
+    exact ⟨some a, by simp [Cache.optStr, h1, h2], rfl⟩
+
+def vm (T : StrTab) (e : Entry) : MView := MView.ofEntry e (off T e.name)
+
+theorem view_rawOf (T : StrTab) (hi : T.Inv) (hsb : T.bytes.length < u32Max) (C : Cache)
+    (hC : C.strings = T.bytes) (e : Entry) (he : EntryIn T e) :
+    C.viewMember (rawOf T e) = some (vm T e) := by
+  obtain ⟨a1, _, _⟩ := res_str T hi hsb C hC e.obf he.obf
+  obtain ⟨a2, _, _⟩ := res_str T hi hsb C hC e.name he.name
+  have a3 := res_opt T hi hsb C hC e.fc he.fc
+  have a4 := res_opt T hi hsb C hC e.file he.file
+  obtain ⟨x, a5, a6⟩ := res_args T hi hsb C hC e.args he.args
+  simp only [Cache.viewMember, rawOf, rawMem, a1, a2, a3, a4, a5, a6, vm, MView.ofEntry]
+
+
+/-! ### `mapM` in `Option` -/
+
+theorem mapM_cons_opt {α β : Type} (f : α → Option β) (a : α) (l : List α) :
+    (a :: l).mapM f = match f a, l.mapM f with
+      | some b, some bs => some (b :: bs)
+      | _, _ => none := by
+  rw [List.mapM_cons]
+  cases f a with
+  | none => rfl
+  | some b => cases l.mapM f <;> rfl
+
+theorem mapM_eq_some_map {α β : Type} (f : α → Option β) (g : α → β) (l : List α)
+    (h : ∀ x ∈ l, f x = some (g x)) : l.mapM f = some (l.map g) := by
+  induction l with
+  | nil => rfl
+  | cons a l ih =>
+    rw [mapM_cons_opt, h a (List.mem_cons_self ..), ih (fun x hx => h x (List.mem_cons_of_mem _ hx))]
+    rfl
+
+def dfltMV : MView := ⟨[], [], [], none, none, 0, 0, 0, 0, 0⟩
+
+/-- the view of a key-sorted list of groups whose content is known group by group -/
+theorem groups_view {κ : Type} [DecidableEq κ] (ord : κ → κ → Ordering) (ho : StrictOrd ord)
+    (G : List (κ × List RawMember)) (hs : KeysSorted ord G) (E : List Entry) (keyE : Entry → κ)
+    (raw : Entry → RawMember) (view : RawMember → Option MView) (vmf : Entry → MView)
+    (keyV : MView → κ)
+    (hgrp : ∀ k, (sfind ord k G).getD [] = (E.filter (fun e => decide (keyE e = k))).map raw)
+    (hview : ∀ e ∈ E, view (raw e) = some (vmf e))
+    (hkey : ∀ e, keyV (vmf e) = keyE e) :
+    ∃ mv, ((G.map (·.2)).flatten).mapM view = some mv ∧
+      mv.Pairwise (fun x y => ord (keyV x) (keyV y) ≠ .gt) ∧
+      (∀ k, mv.filter (fun x => decide (keyV x = k)) =
+        (E.filter (fun e => decide (keyE e = k))).map vmf) ∧
+      (∀ x ∈ mv, ∃ e ∈ E, x = vmf e) := by
+  have hmem : ∀ p ∈ G, ∀ x ∈ p.2, ∃ e ∈ E, keyE e = p.1 ∧ x = raw e := by
+    intro p hp x hx
+    have h1 : sfind ord p.1 G = some p.2 := (sfind_eq_some_iff ord ho p.1 p.2 G hs).2 hp
+    have h2 := hgrp p.1
+    rw [h1, Option.getD_some] at h2
+    rw [h2] at hx
+    obtain ⟨e, he, rfl⟩ := List.mem_map.1 hx
+    obtain ⟨he1, he2⟩ := List.mem_filter.1 he
+    exact ⟨e, he1, by simpa using he2, rfl⟩
+  let g : RawMember → MView := fun x => (view x).getD dfltMV
+  have hg : ∀ e ∈ E, g (raw e) = vmf e := fun e he => by simp only [g, hview e he, Option.getD_some]
+  have hflat : ∀ x ∈ (G.map (·.2)).flatten, ∃ e ∈ E, x = raw e := by
+    intro x hx
+    obtain ⟨l, hl, hxl⟩ := List.mem_flatten.1 hx
+    obtain ⟨p, hp, rfl⟩ := List.mem_map.1 hl
+    obtain ⟨e, he, _, rfl⟩ := hmem p hp x hxl
+    exact ⟨e, he, rfl⟩
+  have hk : ∀ p ∈ G, ∀ a ∈ p.2, keyV (g a) = p.1 := by
+    intro p hp a ha
+    obtain ⟨e, he, hke, rfl⟩ := hmem p hp a ha
+    rw [hg e he, hkey, hke]
+  refine ⟨((G.map (·.2)).flatten).map g, ?_, ?_, ?_, ?_⟩
+  · apply mapM_eq_some_map
+    intro x hx
+    obtain ⟨e, he, rfl⟩ := hflat x hx
+    rw [hview e he, hg e he]
+  · rw [List.pairwise_map]
+    exact flatten_groups_sorted ord ho G hs (fun a => keyV (g a)) hk
+  · intro k
+    rw [List.filter_map]
+    have hf := flatten_groups_filter ord ho G hs (fun a => keyV (g a)) hk k
+    have hp : ((fun x => decide (keyV x = k)) ∘ g) = fun a => ord (keyV (g a)) k == .eq := by
+      funext a
+      simp only [Function.comp]
+      by_cases e : keyV (g a) = k
+      · simp [e, ho.refl]
+      · have : ord (keyV (g a)) k ≠ .eq := fun h => e ((ho.eq_iff _ _).1 h)
+        simp [e, this]
+    rw [hp, hf, hgrp k, List.map_map]
+    apply List.map_congr_left
+    intro e he
+    exact hg e (List.mem_filter.1 he).1
+  · intro x hx
+    obtain ⟨a, ha, rfl⟩ := List.mem_map.1 hx
+    obtain ⟨e, he, rfl⟩ := hflat a ha
+    exact ⟨e, he, hg e he⟩
+
+
+/-! ### the view of the assembled classes -/
+
+def cipView (C : Cache) (cip : ClassInProgress) : Option CView :=
+  match C.str cip.cls.obfOff, C.str cip.cls.origOff, (cipMembers cip).mapM C.viewMember,
+        (cipBps cip).mapM C.viewMember with
+  | some obf, some orig, some mv, some bv => some ⟨obf, orig, mv, bv⟩
+  | _, _, _, _ => none
+
+theorem sliceOf_mid {α : Type} (pre mid post : List α) :
+    Cache.sliceOf (pre ++ (mid ++ post)) pre.length mid.length = some mid := by
+  unfold Cache.sliceOf
+  rw [if_neg (by simp only [List.length_append]; omega), List.drop_left, List.take_left]
+
+theorem viewClass_asm (C : Cache) (c : ClassInProgress) (hc : CipOK c) (preM postM preB postB : List RawMember)
+    (hM : C.members = preM ++ (cipMembers c ++ postM)) (hMl : C.members.length < u32Bound)
+    (hB : C.byParams = preB ++ (cipBps c ++ postB)) (hBl : C.byParams.length < u32Bound) :
+    C.viewClass { c.cls with membersOff := asU32 preM.length, bpOff := asU32 preB.length } =
+      cipView C c := by
+  have e1 : asU32 preM.length = preM.length := by
+    apply asU32_of_lt
+    rw [hM, List.length_append] at hMl; omega
+  have e2 : asU32 preB.length = preB.length := by
+    apply asU32_of_lt
+    rw [hB, List.length_append] at hBl; omega
+  have s1 : C.classMembers { c.cls with membersOff := asU32 preM.length, bpOff := asU32 preB.length }
+      = some (cipMembers c) := by
+    simp only [Cache.classMembers, e1, hM, hc.ml]
+    exact sliceOf_mid _ _ _
+  have s2 : C.classByParams { c.cls with membersOff := asU32 preM.length, bpOff := asU32 preB.length }
+      = some (cipBps c) := by
+    simp only [Cache.classByParams, e2, hB, hc.bl]
+    exact sliceOf_mid _ _ _
+  simp only [Cache.viewClass, s1, s2, cipView]
+  cases C.str c.cls.obfOff with
+  | none => rfl
+  | some a =>
+    cases C.str c.cls.origOff with
+    | none => rfl
+    | some b =>
+      simp only
+      cases (cipMembers c).mapM C.viewMember with
+      | none => simp only
+      | some mv => cases (cipBps c).mapM C.viewMember <;> simp only
+
+theorem asm_view (C : Cache) (L : List ClassInProgress) (hok : ∀ c ∈ L, CipOK c)
+    (preM preB : List RawMember)
+    (hM : C.members = preM ++ (L.map cipMembers).flatten) (hMl : C.members.length < u32Bound)
+    (hB : C.byParams = preB ++ (L.map cipBps).flatten) (hBl : C.byParams.length < u32Bound) :
+    (asmCls L preM.length preB.length).mapM C.viewClass = L.mapM (cipView C) := by
+  induction L generalizing preM preB with
+  | nil => rfl
+  | cons c rest ih =>
+    simp only [List.map_cons, List.flatten_cons] at hM hB
+    have hc := hok c (List.mem_cons_self ..)
+    have i := ih (fun x hx => hok x (List.mem_cons_of_mem _ hx)) (preM ++ cipMembers c)
+      (preB ++ cipBps c) (by rw [hM, List.append_assoc]) (by rw [hB, List.append_assoc])
+    simp only [List.length_append] at i
+    simp only [asmCls]
+    rw [mapM_cons_opt, mapM_cons_opt, i, viewClass_asm C c hc preM _ preB _ hM hMl hB hBl]
+
+
+/-! ### the view of one finished class -/
+
+/-- what `WriterSpec` says about the class entry for block `b` -/
+structure GoodCV (b : Block) (cv : CView) : Prop where
+  obf : cv.obf = b.obf
+  orig : cv.orig = b.orig
+  msorted : cv.members.Pairwise (fun x y => cmpBytes x.obf y.obf ≠ .gt)
+  mfilter : ∀ m, (cv.members.filter (fun x => x.obf == m)).map MView.core =
+              (b.entries.filter (fun e => e.obf == m)).map (fun e => MView.ofEntry e 0)
+  bsorted : cv.byParams.Pairwise (fun x y => cmpPair (x.obf, x.args) (y.obf, y.args) ≠ .gt)
+  bfilter : ∀ m p, (cv.byParams.filter (fun x => x.obf == m && x.args == p)).map MView.core =
+              (b.realEntries.filter (fun e => e.obf == m && e.args == p)).map (fun e => MView.ofEntry e 0)
+  inj : ∀ x ∈ cv.members, ∀ y ∈ cv.members, (x.nameOff = y.nameOff ↔ x.name = y.name)
+
+theorem newCip_sorted (T : StrTab) (o b : Bytes) : CipSorted (newCip T o b) :=
+  ⟨List.Pairwise.nil, List.Pairwise.nil⟩
+
+theorem beq_dec (a m : Bytes) : (a == m) = decide (a = m) := by
+  by_cases h1 : a = m <;> simp [h1]
+
+theorem pair_beq (a b m p : Bytes) : (a == m && b == p) = decide ((a, b) = (m, p)) := by
+  by_cases h1 : a = m <;> by_cases h2 : b = p <;> simp [h1, h2]
+
+theorem block_view (T : StrTab) (hi : T.Inv) (hsb : T.bytes.length < u32Max) (C : Cache)
+    (hC : C.strings = T.bytes) (b : Block) (hbo : InTab T b.orig) (hbb : InTab T b.obf)
+    (hE : ∀ e ∈ b.entries, EntryIn T e) :
+    ∃ cv, cipView C (blockCip T b) = some cv ∧ GoodCV b cv := by
+  have hsort : CipSorted (blockCip T b) := cipGo_sorted T _ (newCip_sorted T _ _) _
+  obtain ⟨n1, n2, n3⟩ := cipGo_names T (newCip T b.orig b.obf) b.body
+  obtain ⟨r1, _, _⟩ := res_str T hi hsb C hC b.obf hbb
+  obtain ⟨r2, _, _⟩ := res_str T hi hsb C hC b.orig hbo
+  have hE' : ∀ e ∈ b.realEntries, EntryIn T e := fun e he => hE e (realEntries_subset b e he)
+  -- members
+  have hg1 : ∀ k, (sfind cmpBytes k (blockCip T b).members).getD [] =
+      (b.entries.filter (fun e => decide (e.obf = k))).map (rawOf T) := by
+    intro k
+    have := cipGo_memGrp T (newCip T b.orig b.obf) (newCip_sorted T _ _) none rfl b.body k
+    have e0 : memGrp (newCip T b.orig b.obf) k = [] := rfl
+    rw [e0, List.nil_append] at this
+    have ep : (fun e : Entry => e.obf == k) = fun e => decide (e.obf = k) := by
+      funext e; exact beq_dec _ _
+    rw [ep] at this
+    exact this
+  obtain ⟨mv, hmv, m1, m2, m3⟩ := groups_view cmpBytes cmpBytes_strictOrd (blockCip T b).members
+    hsort.ms b.entries (fun e => e.obf) (rawOf T) C.viewMember (vm T) (fun v => v.obf) hg1
+    (fun e he => view_rawOf T hi hsb C hC e (hE e he)) (fun e => rfl)
+  -- by-params
+  have hg2 : ∀ k : Bytes × Bytes, (sfind cmpPair k (blockCip T b).byParams).getD [] =
+      (b.realEntries.filter (fun e => decide ((e.obf, e.args) = k))).map (rawOf T) := by
+    intro k
+    obtain ⟨m, p⟩ := k
+    have := cipGo_bpGrp T (newCip T b.orig b.obf) (newCip_sorted T _ _) none rfl b.body m p
+    have e0 : bpGrp (newCip T b.orig b.obf) m p = [] := rfl
+    rw [e0, List.nil_append] at this
+    have ep : (fun e : Entry => e.obf == m && e.args == p) = fun e => decide ((e.obf, e.args) = (m, p)) := by
+      funext e; exact pair_beq _ _ _ _
+    rw [ep] at this
+    exact this
+  obtain ⟨bv, hbv, b1, b2, _⟩ := groups_view cmpPair cmpPair_strictOrd (blockCip T b).byParams
+    hsort.bs b.realEntries (fun e => (e.obf, e.args)) (rawOf T) C.viewMember (vm T)
+    (fun v => (v.obf, v.args)) hg2
+    (fun e he => view_rawOf T hi hsb C hC e (hE' e he)) (fun e => rfl)
+  refine ⟨⟨b.obf, b.orig, mv, bv⟩, ?_, rfl, rfl, m1, ?_, b1, ?_, ?_⟩
+  · have q1 : (blockCip T b).cls.obfOff = off T b.obf := n2
+    have q2 : (blockCip T b).cls.origOff = off T b.orig := n3
+    simp only [cipView, q1, q2, r1, r2]
+    simp only [cipMembers, cipBps] at hmv hbv ⊢
+    rw [hmv, hbv]
+  · intro m
+    have ep : (fun x : MView => x.obf == m) = fun x => decide (x.obf = m) := by
+      funext e; exact beq_dec _ _
+    have ep' : (fun e : Entry => e.obf == m) = fun e => decide (e.obf = m) := by
+      funext e; exact beq_dec _ _
+    simp only
+    rw [ep, ep', m2 m, List.map_map]
+    rfl
+  · intro m p
+    have ep : (fun x : MView => x.obf == m && x.args == p) = fun x => decide ((x.obf, x.args) = (m, p)) := by
+      funext e; exact pair_beq _ _ _ _
+    have ep' : (fun e : Entry => e.obf == m && e.args == p) = fun e => decide ((e.obf, e.args) = (m, p)) := by
+      funext e; exact pair_beq _ _ _ _
+    simp only
+    rw [ep, ep', b2 (m, p), List.map_map]
+    rfl
+  · intro x hx y hy
+    obtain ⟨e1, he1, rfl⟩ := m3 x hx
+    obtain ⟨e2, he2, rfl⟩ := m3 y hy
+    obtain ⟨_, _, i1⟩ := res_str T hi hsb C hC e1.name (hE e1 he1).name
+    obtain ⟨_, _, i2⟩ := res_str T hi hsb C hC e2.name (hE e2 he2).name
+    exact (hi.inj _ _ _ _ i1 i2).symm
+
+
+/-! ### assembling `WriterSpec` -/
+
+def dfltCV : CView := ⟨[], [], [], []⟩
+
+theorem spec_of_classes (recs : List Record) (C : Cache) (hsb : C.strings.length < u32Max)
+    (classes : List (Bytes × ClassInProgress)) (hs : KeysSorted cmpBytes classes)
+    (blk : Block → ClassInProgress)
+    (hfind : ∀ c, sfind cmpBytes c classes = (lastBlock recs c).map blk)
+    (hview : ∀ c b, lastBlock recs c = some b →
+      b.obf = c ∧ ∃ cv, cipView C (blk b) = some cv ∧ GoodCV b cv)
+    (hv : C.view = (classes.map (·.2)).mapM (cipView C)) : WriterSpec recs C := by
+  have H := cmpBytes_strictOrd
+  let h : ClassInProgress → CView := fun cip => (cipView C cip).getD dfltCV
+  -- every class of the table comes from its last block
+  have hcls : ∀ p ∈ classes, ∃ b, lastBlock recs p.1 = some b ∧ p.2 = blk b := by
+    intro p hp
+    have h1 : sfind cmpBytes p.1 classes = some p.2 := (sfind_eq_some_iff _ H p.1 p.2 classes hs).2 hp
+    rw [hfind] at h1
+    cases hl : lastBlock recs p.1 with
+    | none => rw [hl] at h1; cases h1
+    | some b =>
+      rw [hl] at h1
+      simp only [Option.map_some, Option.some.injEq] at h1
+      exact ⟨b, rfl, h1.symm⟩
+  have hgood : ∀ p ∈ classes, ∃ b, lastBlock recs p.1 = some b ∧ cipView C p.2 = some (h p.2) ∧
+      GoodCV b (h p.2) ∧ (h p.2).obf = p.1 := by
+    intro p hp
+    obtain ⟨b, hb1, hb2⟩ := hcls p hp
+    obtain ⟨e1, cv, e2, e3⟩ := hview p.1 b hb1
+    have : h p.2 = cv := by simp only [h, hb2, e2, Option.getD_some]
+    rw [this, hb2]
+    exact ⟨b, hb1, e2, e3, e3.obf.trans e1⟩
+  have hview' : C.view = some ((classes.map (·.2)).map h) := by
+    rw [hv]
+    apply mapM_eq_some_map
+    intro x hx
+    obtain ⟨p, hp, rfl⟩ := List.mem_map.1 hx
+    obtain ⟨_, _, e, _⟩ := hgood p hp
+    exact e
+  have hmemv : ∀ cv ∈ (classes.map (·.2)).map h, ∃ p ∈ classes, cv = h p.2 := by
+    intro cv hcv
+    obtain ⟨x, hx, rfl⟩ := List.mem_map.1 hcv
+    obtain ⟨p, hp, rfl⟩ := List.mem_map.1 hx
+    exact ⟨p, hp, rfl⟩
+  refine ⟨hsb, ⟨_, hview'⟩, ?_, ?_, ?_⟩
+  · intro v hvv
+    rw [hview'] at hvv
+    cases hvv
+    rw [List.map_map, List.map_map, List.pairwise_map]
+    refine List.Pairwise.imp_of_mem ?_ hs
+    intro p q hp hq hlt
+    obtain ⟨_, _, _, _, e1⟩ := hgood p hp
+    obtain ⟨_, _, _, _, e2⟩ := hgood q hq
+    simp only [Function.comp]
+    rw [e1, e2]
+    exact hlt
+  · intro v hvv name
+    rw [hview'] at hvv
+    cases hvv
+    refine ⟨?_, ?_⟩
+    · intro hnone cv hcv hobf
+      obtain ⟨p, hp, rfl⟩ := hmemv cv hcv
+      obtain ⟨b, hb, _, _, e1⟩ := hgood p hp
+      rw [e1] at hobf
+      rw [hobf, hnone] at hb
+      cases hb
+    · intro b hb
+      have h1 := hfind name
+      rw [hb] at h1
+      simp only [Option.map_some] at h1
+      have hp : (name, blk b) ∈ classes := (sfind_eq_some_iff _ H _ _ classes hs).1 h1
+      obtain ⟨b', hb', _, g, e1⟩ := hgood (name, blk b) hp
+      simp only at hb' g e1
+      rw [hb] at hb'
+      cases hb'
+      refine ⟨h (blk b), ?_, e1, g.orig, g.msorted, g.mfilter, g.bsorted, g.bfilter⟩
+      exact List.mem_map.2 ⟨blk b, List.mem_map.2 ⟨(name, blk b), hp, rfl⟩, rfl⟩
+  · intro v hvv cv hcv
+    rw [hview'] at hvv
+    cases hvv
+    obtain ⟨p, hp, rfl⟩ := hmemv cv hcv
+    obtain ⟨b, _, _, g, _⟩ := hgood p hp
+    exact g.inj
+
+end WI
 
 /-- the size hypothesis forced by the format's `u32` counters and string offsets -/
 structure Tables.Small (t : Tables) : Prop where
@@ -16,14 +389,64 @@ structure Tables.Small (t : Tables) : Prop where
   nb : t.byParams.length < u32Bound
   sb : t.strings.length < u32Max
 
+open WI in
 /-- for *every* record list (no domain restriction): if the tables are small, everything fits;
     this is what makes the writer's own output always parse (C13) -/
 theorem build_fits (recs : List Record) (hs : (Tables.build recs).Small) : (Tables.build recs).Fits := by
-  sorry
+  obtain ⟨h1, h2, h3, h4⟩ := hs
+  rw [build_eq] at h1 h2 h3 h4 ⊢
+  simp only at h1 h2 h3 h4
+  have hok : ∀ c ∈ (finClasses recs).map (·.2), CipOK c := by
+    intro c hc
+    obtain ⟨p, hp, rfl⟩ := List.mem_map.1 hc
+    exact finClasses_ok recs p hp
+  obtain ⟨s1, s2⟩ := asmCls_msum _ 0 0 hok
+  refine ⟨h1, h2, h3, h4, asmCls_fields _ 0 0 hok h2 h3, ?_, ?_, s1, s2⟩
+  · intro m hm
+    simp only at hm
+    obtain ⟨g, hg, hmg⟩ := List.mem_flatten.1 hm
+    obtain ⟨c, hc, rfl⟩ := List.mem_map.1 hg
+    exact (hok c hc).mf m hmg
+  · intro m hm
+    simp only at hm
+    obtain ⟨g, hg, hmg⟩ := List.mem_flatten.1 hm
+    obtain ⟨c, hc, rfl⟩ := List.mem_map.1 hg
+    exact (hok c hc).bf m hmg
 
+open WI SpecR in
 /-- in the representable domain the written tables represent the record stream (C02, C09) -/
 theorem build_writerSpec (recs : List Record) (hr : ReprR recs) (hs : (Tables.build recs).Small) :
     WriterSpec recs (Cache.ofTables (Tables.build recs)) := by
-  sorry
+  obtain ⟨h1, h2, h3, h4⟩ := hs
+  rw [build_eq] at h1 h2 h3 h4 ⊢
+  simp only at h1 h2 h3 h4
+  have hb : (writeGo WState.init recs).tab.bytes.length < usizeBound := by
+    simp only [u32Max, usizeBound] at *; omega
+  have hT : TabOK (writeGo WState.init recs).tab := writeGo_ok WState.init recs tabOK_empty hr hb
+  have hi := hT.inv
+  have hle : Le (writeGo WState.init recs).tab (writeGo WState.init recs).tab := Le.refl _
+  have hnil : KeysSorted cmpBytes WState.init.classes := List.Pairwise.nil
+  have hsorted : KeysSorted cmpBytes (finClasses recs) := fin_sorted WState.init recs hnil
+  have hin := writeGo_recIn _ hi hb WState.init recs tabOK_empty hr hle
+  have hfind : ∀ c, sfind cmpBytes c (finClasses recs) =
+      (lastBlock recs c).map (blockCip (writeGo WState.init recs).tab) := by
+    intro c
+    have := fin_sfind _ hi hb WState.init recs tabOK_empty hr hle hnil c
+    rw [show finClasses recs = fin WState.init recs from rfl, this]
+    cases lastBlock recs c with
+    | some b => rfl
+    | none =>
+      simp only [Option.map_none]
+      rw [flushCip_sfind _ _ hnil, (cipGo_names _ _ _).1]
+      simp [WState.init, ClassInProgress.empty, sfind_nil]
+  have hok : ∀ c ∈ (finClasses recs).map (·.2), CipOK c := by
+    intro c hc
+    obtain ⟨p, hp, rfl⟩ := List.mem_map.1 hc
+    exact finClasses_ok recs p hp
+  refine spec_of_classes recs _ h4 (finClasses recs) hsorted _ hfind ?_ ?_
+  · intro c b hl
+    obtain ⟨e, i1, i2, i3⟩ := lastBlock_in _ recs hin c b hl
+    exact ⟨e, block_view _ hi h4 _ rfl b i1 i2 i3⟩
+  · exact asm_view _ _ hok [] [] rfl h2 rfl h3
 
 end PG
